@@ -16,6 +16,7 @@ import farmcheck
 import build
 import expgen
 import exprender
+import expmodel
 import p21gen
 import p21render
 import p21parse
@@ -158,6 +159,10 @@ def case(ctx, x):
             if not oracle(ctx.lib, pop2, p21render.render(pop2, layout, feats=feats - {"comment-inner"}), ctx.wd, tag + "e"):
                 ctx.known("pop:number-int-in-aggregate")
                 return
+        if "pop:nested-select-complex-ref" in ctx.open_sigs and any("not a valid type for SELECT" in p for p in probs) \
+                and p21gen.has_nested_select_complex_ref(expmodel.Schema(ctx.lib["schema"]), pop):
+            ctx.known("pop:nested-select-complex-ref")
+            return
         sig = signature(probs)
         if ctx.known(sig):
             return
@@ -171,6 +176,8 @@ def probe_cfg(findings):
     cfg = {}
     if "pop:number-int-in-aggregate" in sigs:
         cfg["allow_number_int_in_agg"] = True
+    if "pop:nested-select-complex-ref" in sigs:
+        cfg["allow_nested_select_complex_ref"] = True
     return cfg
 
 
